@@ -15,7 +15,7 @@ RULE = ('exact: random/boundary graphs n<=8 x harness tables (duration per (node
 ASSUMPTIONS = ['user delay lists are ascending; three profiles keep them shorter than the duration (documented use), the profile late also lists attempts after the recovery of the source (the statement says: for every listed delay)', 'event times are distinct (checked per case; cases with ties are discarded and counted)']
 BUDGET = {'quick': 150, 'thorough': 1200}
 CHUNK = {'quick': 30, 'thorough': 150}
-REQUIRED = ['histories_compared', 'reinfections_seen', 'blocked_attempts_seen', 'user_fn_args_checked', 'law_tests', 'late_attempt_cases', 'stored_delay_lists_handed_out_again', 'horizons_placed_exactly_on_an_event']
+REQUIRED = ['histories_compared', 'reinfections_seen', 'blocked_attempts_seen', 'user_fn_args_checked', 'law_tests', 'late_attempt_cases', 'stored_delay_lists_handed_out_again', 'horizons_placed_exactly_on_an_event', 'self_infections_in_reference']
 INF = float('inf')
 
 
@@ -29,6 +29,12 @@ def gen_cases(tier, seed):
         desc = gen.random_graph(r, 1, 8)
         desc['labels'] = r.choice(gen.LABEL_SCHEMES)
         nn = desc['n']
+        if r.random() < 0.15:
+            # self-loops (nx.Graph(nx.configuration_model(...)) keeps them): the node is then one of its own neighbours, and a listed delay
+            # beyond its own duration reaches it when it is susceptible again
+            desc = dict(desc)
+            desc['edges'] = [list(e) for e in desc['edges']] + [[i, i] for i in r.sample(range(nn), r.randint(1, min(nn, 2)))]
+            desc['selfloops'] = True
         I0 = r.sample(range(nn), r.randint(1, min(nn, 3)))
         tmin = r.choice([0, -2, 1.5, -0.5, 1600000000])          # incl. an absolute clock (seconds since an epoch)
         tmax = tmin + r.choice([1.0, 3.0, 7.0])
@@ -203,6 +209,9 @@ def run_exact(case, res):
         viol(res, 'fast_nonMarkov_SIS|delay_function_receives_the_infection_duration', {'node,nbr,passed,drawn': argbad[0]})
         return
     bump(res, 'histories_compared')
+    if case['graph'].get('selfloops'):
+        bump(res, 'histories_compared_on_graphs_with_self_loops')
+        bump(res, 'self_infections_in_reference', sum(1 for (t_, a_, b_) in trans if a_ is not None and a_ == b_))
     for (i, j), lst in store.items():
         if lst != table_delays(seed, profile, i, j, 0, 0):
             viol(res, 'fast_nonMarkov_SIS|user_delay_list_modified', {'contact': [i, j], 'now': lst, 'was': table_delays(seed, profile, i, j, 0, 0)})
